@@ -30,6 +30,7 @@ def run(chk):
 
 
 def rule_select(chk, comp, bp):
+    f = chk.facts
     loops = [l for l in F.for_loops(comp["thir"]) if l[2] is not None and any(c.get("fn") == bp["path"] for c in F.exprs(l[2], "Call"))]
     if not chk.anchor("C17.anchor/selection-loop", loops[0] if len(loops) == 1 else None, "for pipeline in &ir.pipelines { build_pipeline(..) }", where(comp)):
         return
@@ -56,6 +57,29 @@ def rule_select(chk, comp, bp):
                 if a and b and a["id"] in lv and b["id"] in bound and "name" in names:
                     ne.append(x)
         ok_skip = has_name and len(ne) == 1 and not any(x.get("k") == "Logical" and x.get("op") == "Or" for x in F.walk(c))
+    if not ok_skip:
+        # the same decision written differently: evaluate the loop body for (requested name, pipeline name) and see whether
+        # build_pipeline is reached
+        import interp as I
+        args_ids = [q.get("pat", {}).get("id") for q in comp["params"] if "CompileArgs" in q.get("ty", "")]
+        if args_ids and lv:
+            res = []
+            readable = True
+            for req, pname in ((None, "P"), ("P", "P"), ("Q", "P"), ("", "P")):
+                called = []
+                ipx = I.Interp(f, extern={bp["path"]: lambda a, called=called: (called.append(1), I.Enum("Result", "Ok", {"0": I.Opaque("compiled")}))[1],
+                                          "Vec::<T, A>::push": lambda a: ()})
+                env = {i: I.Enum("PipelineDefinition", None, {"name": I.Enum("Located", None, {"node": pname, "location": I.Opaque("loc")})}) for i in lv}
+                env[args_ids[0]] = I.Enum("CompileArgs", None, {"pipeline_name": I.Enum("Option", "None") if req is None else I.Enum("Option", "Some", {"0": req}),
+                                                                  "no_pipeline_mode": False})
+                try:
+                    ipx.ev(body, env)
+                except I.ContinueEx:
+                    pass
+                except (I.Unknown, I.ReturnEx, I.BreakEx):
+                    readable = False
+                res.append(bool(called))
+            ok_skip = readable and res == [True, True, False, False]
     chk.ob("C17.select/skip-iff-other-name", ok_skip, "a pipeline is skipped iff a name is requested and pipeline.name != name" if ok_skip else
            "the selection loop's skip condition is no longer `Some(name) = pipeline_name && pipeline.name != name`", where(comp, node))
     # the pipeline passed is the loop's
@@ -165,6 +189,15 @@ def rule_isolate(chk, bp):
         its = F.strip(it)
         if its.get("k") == "Field" and its["name"] == "stages":
             n_stage_loops += 1
+    # or as an iterator chain: `pipeline.stages.iter().map(|stage| CompiledPipelineStage {..}).collect()`
+    for c in F.exprs(bp["thir"], "Call"):
+        if short(c.get("fn") or "") in ("map", "for_each") and c.get("args") and F.strip(c["args"][-1]).get("k") == "Closure":
+            recv = c["args"][0]
+            if any(x.get("k") == "Field" and x.get("name") == "stages" for x in F.walk(recv)) and \
+                    not any(short(x.get("fn") or "") in ("skip", "take", "rev", "filter", "step_by") for x in F.exprs(recv, "Call")):
+                cb = chk.facts.bodies.get(F.strip(c["args"][-1]).get("path"))
+                if cb and any(short(a["adt"]) == "CompiledPipelineStage" for a in F.exprs(cb["thir"], "Adt")):
+                    n_stage_loops += 1
     chk.ob("C17.meta/stages", n_stage_loops >= 2, "stages iterate the selected pipeline's stages (%d exporter arms)" % n_stage_loops if n_stage_loops >= 2 else
            "reported stages are no longer built from `pipeline.stages` in both exporter arms", where(bp))
 
